@@ -204,7 +204,7 @@ def path_of(nodes, ctx):
 
 # ------------------------------------------------------------------ reference engine (lxml), restricted grammar
 SAFE_STEP = re.compile(r"^(?:(child|descendant|descendant-or-self|parent|ancestor|ancestor-or-self|following-sibling|preceding-sibling|self)::)?"
-                       r"(a|b|c|\*|p:a|p:\*|text\(\)|comment\(\)|processing-instruction\(\)|processing-instruction\(\"pi\"\)|node\(\))"
+                       r"(a|b|c|\*|p:a|p:\*|svg:a|svg:\*|text\(\)|comment\(\)|processing-instruction\(\)|processing-instruction\(\"pi\"\)|node\(\))"
                        r"((?:\[[^\[\]]*\])*)$")
 
 
@@ -244,8 +244,8 @@ def lxml_reference(case, nodes, ctx):
             test = "*"  # deviation 3: node() stands for tag nodes
         elif test in ("a", "b", "c") and default:
             test = "dflt__:" + test
-        if test.startswith("p:") and "p" not in prefixes:
-            return None
+        if ":" in test and test.split(":")[0] not in prefixes:
+            return None  # the library falls back to its common namespaces / raises: not the reference's business
         out.append((m.group(1) + "::" if m.group(1) else "") + test + preds)
     lexpr = "/".join(out)
     nsmap = dict(prefixes)
@@ -292,7 +292,7 @@ def gen_safe(rng):
     for _ in range(rng.randrange(1, 4)):
         ax = rng.choice(["child", "descendant", "descendant-or-self", "parent", "ancestor", "ancestor-or-self",
                          "following-sibling", "preceding-sibling", "self", "", "", ""])
-        nt = rng.choice(["a", "b", "c", "*", "p:a", "p:*", "text()", "comment()", "processing-instruction()", "node()"])
+        nt = rng.choice(["a", "b", "c", "*", "p:a", "p:*", "svg:a", "svg:*", "text()", "comment()", "processing-instruction()", "node()"])
         s = (ax + "::" if ax else "") + nt
         for _ in range(rng.choice([0, 1, 1, 2])):
             p = rng.choice([str(rng.randrange(1, 4)), "position()=last()", "@x", '@x="1"', "position()<3", 'contains(@y,"b")',
